@@ -217,13 +217,19 @@ class Interp:
             return adt(L.edgeinfo, {0: tuple(self.typed(TOP, f["ty"]) for f in L.edge_fields)})
         if root[0] == "ghost":
             return BOOL_TOP
+        if root[0] == "shape":
+            return ("shapefacts", frozenset())
         if root[0] == "job":
             sym = root[1]
             roles = root[2] if len(root) > 2 else frozenset()
             st = None
+            extra = None
             for tag in self.role_tags(roles):
                 if tag in self.cfg.cell_init:
                     st = self.cfg.cell_init[tag]
+                    if isinstance(st, dict):
+                        extra = st
+                        st = extra.get("state")
             constraint = root[3] if len(root) > 3 else None
             if st is None:
                 st = self.cfg.default_states or self.js_full
@@ -239,9 +245,15 @@ class Interp:
                 elif i == L.jobid_field:
                     fields.append(string([("jobid", sym)]))
                 elif i == L.histout_field:
-                    fields.append(adt("std::option::Option", {0: (), 1: (string([("histout", sym)]),)}))
+                    vs = {0: (), 1: (string([("histout", sym)]),)}
+                    if extra is not None and extra.get("histout") is not None:
+                        vs = {extra["histout"]: vs[extra["histout"]]}
+                    fields.append(adt("std::option::Option", vs))
                 elif f["ty"]["s"] == "bool":
-                    fields.append(BOOL_TOP)
+                    if extra is not None and i in (extra.get("bools") or {}):
+                        fields.append(boolean([extra["bools"][i]]))
+                    else:
+                        fields.append(BOOL_TOP)
                 else:
                     fields.append(TOP)
             return adt(L.nodeinfo, {0: tuple(fields)})
@@ -293,7 +305,7 @@ class Interp:
         if hk[0] == "job":
             info = self.sym_info.get(hk[1], (frozenset(), None))
             return self.default_root(("job", hk[1], info[0], info[1]), state, lazy=True)
-        if hk[0] in ("edge", "ghost", "strparam") or hk == ("self",):
+        if hk[0] in ("edge", "ghost", "strparam", "shape") or hk == ("self",):
             return self.default_root(hk, state)
         return None
 
@@ -358,7 +370,7 @@ class Interp:
                     return None
                 if cur[0] == "ref":
                     root, proj = cur[1], cur[2]
-                elif cur[0] in ("key", "str", "int", "coll", "iter", "obj"):
+                elif cur[0] in ("key", "str", "int", "coll", "iter", "obj", "bytes"):
                     pass  # value-as-reference: &usize / &str / &String are carried as the value
                 else:
                     return None
@@ -511,6 +523,12 @@ class Interp:
                 return string([("const", bs.decode("utf8"))])
             except Exception:
                 return ("bytes", bs)
+        if s.startswith("&[u8;") and c["const"].startswith('b"'):
+            try:
+                import ast
+                return ("bytes", ast.literal_eval(c["const"]))
+            except Exception:
+                return TOP
         if "int" in c:
             try:
                 v = int(c["int"], 16)
@@ -586,6 +604,11 @@ class Interp:
                 v = ("fin", BOOL, v[2], v[3] + ((src, "fin", frozenset([(1,)]), frozenset([(0,)])),))
             return v
         if k == "ref" or k == "rawptr":
+            pp = r["p"]["p"]
+            if len(pp) == 1 and pp[0]["k"] == "deref":
+                cur = state.locals.get((frame.fid, r["p"]["l"]))
+                if cur is not None and cur[0] in ("str", "key", "bytes"):
+                    return cur      # re-borrow of a value carried as its own reference
             loc = self.resolve(state, frame, r["p"])
             if loc is None or loc[0] == "anyjob":
                 return TOP
@@ -594,6 +617,8 @@ class Interp:
         if k == "cast":
             v = self.eval_operand(state, frame, r["o"])
             if "Transmute" in r["ck"]:
+                if v[0] == "ref" and r["ty"]["s"][:1] in ("*", "&"):
+                    return v
                 return TOP
             if v[0] == "fin" and r["ty"]["s"] in ("isize", "usize", "u8", "u32", "i32", "u64", "i64"):
                 if len(v[2]) == 1:
@@ -892,6 +917,12 @@ class Interp:
                 if new is None:
                     return False
                 self.store_root(state, root, new)
+            elif l[1] == "shapefact":
+                facts = cur[1] if (cur is not None and cur[0] == "shapefacts") else frozenset()
+                neg = (allowed[0], not allowed[1])
+                if neg in facts:
+                    return False
+                self.store_root(state, root, ("shapefacts", facts | {allowed}))
             elif l[1] == "shape":
                 if sub[0] == "str":
                     neg = (allowed[0], not allowed[1])
